@@ -522,6 +522,36 @@ fn clone_independence(st: &mut Stats, rng: &mut Rng) {
     let p = Polynomial::new(rand_vec(rng, 4)); let mut q = p.clone(); let sp = format!("{:?}", (0..p.size()).map(|k| p[k]).collect::<Vec<_>>());
     q[0] = Rat::int(99); q.coeffs().push(Rat::ONE);
     st.eval(); if format!("{:?}", (0..p.size()).map(|k| p[k]).collect::<Vec<_>>()) != sp { st.violation("C20:Polynomial:clone-not-independent", sp); }
+    // Clone::clone_from (the allocation-reusing form) on a LIVE receiver of another size: afterwards the receiver must be
+    // indistinguishable from the source - sizes, entries, derived quantities - and independent of it
+    {
+        let (n1, n2) = (rng.usize(1, 6), rng.usize(1, 6));
+        let src = rv(rng, n1); let mut dst = rv(rng, n2); dst.clone_from(&src);
+        st.eval(); if dst.vec != src.vec || dst.size() != src.size() { st.violation("C20:Vector:clone_from-differs", format!("src {:?} dst {:?}", src.vec, dst.vec)); }
+        let (r1, c1, r2, c2) = (rng.usize(0, 4), rng.usize(0, 4), rng.usize(0, 4), rng.usize(0, 4));
+        let src = rm(rng, r1, c1); let mut dst = rm(rng, r2, c2); dst.clone_from(&src);
+        st.eval(); if snap_m(&dst) != snap_m(&src) { st.violation("C20:Matrix:clone_from-differs", format!("src {} dst {}", snap_m(&src), snap_m(&dst))); }
+        else if r1 > 0 && c1 > 0 { let ss = snap_m(&src); dst[(0, 0)] = Rat::int(77); if snap_m(&src) != ss { st.violation("C20:Matrix:clone-not-independent", ss); } }
+        let (n1, n2) = (rng.usize(1, 6), rng.usize(1, 6));
+        let (a1, a2) = (rng.usize(0, n1 - 1), rng.usize(0, n1 - 1)); let (b1, b2) = (rng.usize(0, n2 - 1), rng.usize(0, n2 - 1));
+        let src = rband(rng, n1, a1, a2); let mut dst = rband(rng, n2, b1, b2); dst.clone_from(&src);
+        st.eval();
+        let x = rv(rng, n1);
+        if snap_b(&dst) != snap_b(&src) { st.violation("C20:Banded:clone_from-differs", format!("src {} dst {}", snap_b(&src), snap_b(&dst))); }
+        else { match (catch(|| (&src * &x).vec), catch(|| (&dst * &x).vec), catch(|| src.det()), catch(|| dst.det())) { (Outcome::Ok(p), Outcome::Ok(q), Outcome::Ok(d1), Outcome::Ok(d2)) => if p != q || d1 != d2 { st.violation("C20:Banded:clone_from-differs", format!("products/determinants differ after clone_from: {:?} vs {:?}, {:?} vs {:?}", p, q, d1, d2)); }, (Outcome::Overflow, ..) | (_, Outcome::Overflow, ..) | (_, _, Outcome::Overflow, _) | (_, _, _, Outcome::Overflow) => {}, _ => st.violation("C20:Banded:clone_from-differs", format!("an operation panics on the receiver of clone_from but not on the source (or vice versa): src {}", snap_b(&src))) } }
+        let (n1, n2) = (rng.usize(1, 6), rng.usize(1, 6));
+        let src = rtri(rng, n1); let mut dst = rtri(rng, n2); dst.clone_from(&src);
+        st.eval();
+        let x = rv(rng, n1);
+        if snap_t(&dst) != snap_t(&src) { st.violation("C20:Tridiagonal:clone_from-differs", format!("src {} dst {}", snap_t(&src), snap_t(&dst))); }
+        else { match (catch(|| (&src * &x).vec), catch(|| (&dst * &x).vec), catch(|| src.det()), catch(|| dst.det()), catch(|| snap_m(&src.convert())), catch(|| snap_m(&dst.convert()))) { (Outcome::Ok(p), Outcome::Ok(q), Outcome::Ok(d1), Outcome::Ok(d2), Outcome::Ok(c1), Outcome::Ok(c2)) => if p != q || d1 != d2 || c1 != c2 { st.violation("C20:Tridiagonal:clone_from-differs", format!("product/determinant/dense form differ after clone_from: {:?} vs {:?}, {:?} vs {:?}, {} vs {}", p, q, d1, d2, c1, c2)); }, (a, b, c, d, e, f) => if [a.is_ok(), c.is_ok(), e.is_ok()] != [b.is_ok(), d.is_ok(), f.is_ok()] && ![matches!(a, Outcome::Overflow), matches!(b, Outcome::Overflow), matches!(c, Outcome::Overflow), matches!(d, Outcome::Overflow)].iter().any(|v| *v) { st.violation("C20:Tridiagonal:clone_from-differs", format!("an operation panics on the receiver of clone_from but not on the source: src {}", snap_t(&src))); } } }
+        let (n1, n2) = (rng.usize(0, 6), rng.usize(0, 6));
+        let src = Polynomial::new(rand_vec(rng, n1)); let mut dst = Polynomial::new(rand_vec(rng, n2)); dst.clone_from(&src);
+        st.eval();
+        let cs = |p: &Polynomial<Rat>| (0..p.size()).map(|k| p[k]).collect::<Vec<_>>();
+        if cs(&src) != cs(&dst) { st.violation("C20:Polynomial:clone_from-differs", format!("src {:?} dst {:?}", cs(&src), cs(&dst))); }
+        st.count("clone_from-cases");
+    }
     st.count("clone-cases");
     st.nontrivial(hmix(hash_str("clone"), rng.u64()));
 }
